@@ -16,6 +16,8 @@ Tie (harness/quad.cpp, which #includes net_model.cpp of the tree under test):
         results) and times 2.5, 7 (within SOLVE_TOL of the coordinate span, anchored systems only)   [validated, not proved]
   PLACE Circuit::placeGlobal with weights and penalty.initialValue times 2, 1/2: every callback and the result equal;
         times 2.5, 7: first lower-bound callback within 1 + 1e-3 * span; x/yTopology store the circuit's weights.
+        PLACECB: the same with a callback that resizes cells (setCellWidth/Height), sets net weights or only reads at given
+        callbacks of the run; factors 4 and 1/8: identical traces (placements, sizes, number of steps) and results.
         Stream "placep": the same with a tail of ACCEPTED parameter values other than the defaults (global.noise exactly 0,
         every checked field of GlobalPlacerParameters at the ends of its accepted interval; see genPlaceP in harness/quad.cpp).
   FASM  the assembly at weights/strengths * 1 and * 2^k against the Flocq binary32 model coq/QuadFloat.v evaluated inside Coq
@@ -897,6 +899,56 @@ def check_place(lines, impl, stats):
     return bad
 
 
+N_PLACECB_Q = 150     # quick tier: PLACECB cases (placeGlobal with a callback that resizes cells / sets net weights / only reads in mid-run)
+PLACECB_FACTORS = (4, 0.125)
+
+
+def check_placecb(lines, impl, stats):
+    """PLACECB: the runs at factor 1, 4 and 1/8 (net weights, setNetWeights arguments and penalty.initialValue scaled together) must show the
+    same placements at every callback, take the same number of steps and return the same placement, exactly as check_place demands for the
+    factors 2 and 1/2 without callback: powers of two, moderate magnitudes (the domain of the binary32 theorems)"""
+    bad = []
+    pst = stats.setdefault("placecb_stream", {"cases": 0, "rejected_parameter_sets": 0, "actions_fired": {"read_only": 0, "setCellWidth": 0, "setCellHeight": 0, "setNetWeights": 0},
+                                              "cases_with_a_resize": 0, "cases_with_penalty_steps_after_a_resize": 0,
+                                              "penalty_steps_after_a_resize_total": 0, "cases_no_action_reached": 0, "callbacks_total": 0})
+    names = {"A0": "read_only", "A1": "setCellWidth", "A2": "setCellHeight", "A3": "setNetWeights"}
+    for l, i in zip(lines, impl):
+        pst["cases"] += 1
+        if i.startswith("REJECTED"):
+            pst["rejected_parameter_sets"] += 1
+            continue
+        if " # W" not in i:
+            bad.append((l, "placeGlobal with a callback did not return: " + i[:200])); continue
+        parts = i.split(" # W")[0].split(" | ")
+        if len(parts) != 3:
+            bad.append((l, "placeGlobal with a callback did not return for every factor: " + i[:200])); continue
+        tr = [e.split()[0] for e in parts[0].split(";") if e.strip()]
+        pst["callbacks_total"] += sum(1 for e in tr if e in ("TL", "TU", "TP"))
+        fired = [e for e in tr if e in names]
+        for e in fired:
+            pst["actions_fired"][names[e]] += 1
+        if not fired:
+            pst["cases_no_action_reached"] += 1
+        rz = next((k for k, e in enumerate(tr) if e in ("A1", "A2")), None)
+        if rz is not None:
+            pst["cases_with_a_resize"] += 1
+            ub = next((k for k in range(rz, len(tr)) if tr[k] == "TU"), None)      # the size update is consumed at the start of the next runUB
+            after = tr[ub:].count("TL") if ub is not None else 0
+            pst["penalty_steps_after_a_resize_total"] += after
+            pst["cases_with_penalty_steps_after_a_resize"] += 1 if after else 0
+        for f, p in zip(PLACECB_FACTORS, parts[1:]):
+            if p != parts[0]:
+                a, c = parts[0].split(";"), p.split(";")
+                j = next((j for j in range(min(len(a), len(c))) if a[j] != c[j]), min(len(a), len(c)))
+                bad.append((l, "placeGlobal with a callback that %s in mid-run differs when all net weights and penalty.initialValue are multiplied by %s: "
+                               "%d vs %d trace entries; entry #%d is '%s' vs '%s'"
+                            % (" / ".join(sorted(set(names[e] for e in fired))) or "only observes", f, len(a), len(c), j,
+                               a[j][:120] if j < len(a) else "<none>", c[j][:120] if j < len(c) else "<none>")))
+                break
+        stats["place"] += 1
+    return bad
+
+
 def run(ctx):
     proof_ok, proof = common.proof_status(ctx, "C17")
     harness = common.build_harness("quad")
@@ -929,6 +981,16 @@ def run(ctx):
                       {"broken": "checks/c17.py ls_residual (residual oracle of SOLVE kind 0)", "statistics": lso}, found_input=False)
     pimpl, _, _ = common.run_both([harness, "run"], None, place, chunk=3)
     pbad = check_place(place, pimpl, stats)
+    # placeGlobal WITH callbacks that do something legitimate in mid-run (resize cells, set net weights, read): traces at factors 1, 4, 1/8
+    placecb = common.corpus("C17", ("PLACECB ",))
+    for sd in seeds:
+        placecb += common.harness_gen(harness, ["placecb", sd, (N_PLACECB_Q if q else 3000) // len(seeds)])
+    cimpl, _, _ = common.run_both([harness, "run"], None, placecb, chunk=3)
+    cbad = check_placecb(placecb, cimpl, stats)
+    pcs = stats["placecb_stream"]
+    if not cbad and pcs["cases_with_penalty_steps_after_a_resize"] * 5 < len(placecb):
+        ctx.violation("fewer than a fifth of the PLACECB cases reach a lower-bound step with a penalty after a cell resize made by the callback: %s" % pcs,
+                      {"broken": "harness/quad.cpp stream placecb / checks/c17.py check_placecb", "statistics": pcs}, found_input=False)
     fdiffs, fconcrete = [], []
     finfo = float_tie(ctx, harness, 45 if q else 600, fdiffs, fconcrete, ccount=N_FCOIN_Q if q else 400)
     kbad, cginfo = check_solvek(ctx, harness, [l for l in solve if l.startswith("SOLVE ")][:(20 if q else 300)], 6 if q else 12, stats)
@@ -941,9 +1003,9 @@ def run(ctx):
                       {"case": l, "format": "see harness/quad.cpp header", "implementation_output": out, "why": why})
     for l, why in sbad[:2]:
         ctx.violation("C17 violated by /repo (continuous solver): " + why, {"case": l, "format": "see harness/quad.cpp header", "why": why})
-    for l, why in pbad[:1]:
+    for l, why in pbad[:1] + cbad[:1]:
         ctx.violation("C17 violated by /repo (Circuit::placeGlobal): " + why, {"case": l, "format": "see harness/quad.cpp header", "why": why})
-    found = bool(concrete or sbad or pbad)
+    found = bool(concrete or sbad or pbad or cbad)
     if diffs and not found:
         l, d, out, f12 = diffs[0]
         ctx.violation("correspondence Quad.v / QuadFloat.v <-> NetModel/MatrixCreator broken (%d of %d cases differ: %s); no input violating C17 found"
@@ -965,7 +1027,7 @@ def run(ctx):
                     "(sig_forall_dec, sig_not_dec, functional_extensionality_dep, classic) are trusted by the c17_float_* theorems",
                     "compiler: " + FLOAT_FLAGS],
                 "binary32_tie": finfo, "cg_scale_window_measured": cginfo,
-                "evaluations": len(asm) + len(solve) + len(place),
+                "evaluations": len(asm) + len(solve) + len(place) + len(placecb),
                 "distinct_nontrivial": len(nontriv),
                 "rule": "ASM case lines (distinct) with at least one net joining two different cells/fixed pins; all seven assembly entry points "
                         "(createStar(topo), B2B, Star, Clique, LightStar with placement, addBipoint, addClique), with and without addPenalty. "
@@ -986,19 +1048,27 @@ def run(ctx):
                         "probability 25 % each; cases with lower-bound steps solved WITH the penalty term are counted (with_penalty_steps, "
                         "noise_0_with_penalty_steps); for 2 and 1/2 every exposed placement (tagged by step kind) and the result are "
                         "compared exactly, for 2.5 and 7 the first lower bound (skipped when the CG settings are outside [1e-6, 1e-4] / "
-                        ">= 100 iterations)",
+                        ">= 100 iterations).  PLACECB (distribution.placecb_stream): the circuits and parameter tails of 'placep' (>= 4 steps, "
+                        "gap / distance tolerance 0 in 75 %) with 1..3 actions of the callback at callbacks 0..9: Circuit::setCellWidth (45 %: 35 % of the "
+                        "movable cells by -2..+3), setCellHeight (20 %: one <-> two row heights), setNetWeights (15 %: new weights times the factor) -- the "
+                        "setters Circuit::checkNotInUse does not refuse during a run -- or reads only (20 %); the traces (every exposed placement, the "
+                        "sizes set, the number of steps) and the result at the factors 4 and 1/8 must equal those at factor 1 exactly; measured: actions "
+                        "fired by kind, cases with lower-bound steps solved with a penalty AFTER a resize (a run fails when under a fifth of the cases)",
                 "asm_cases_with_all_pins_of_a_3plus_pin_net_coincident": len(collapsed),
                 "samples": [asm[0][:300], asm[len(asm) // 2][:300], solve[0][:300], place[0][:300]],
                 "distribution": stats,
-                "asm_cases": len(asm), "solve_cases": len(solve), "place_cases": len(place),
+                "asm_cases": len(asm), "solve_cases": len(solve), "place_cases": len(place), "placecb_cases": len(placecb),
                 "compared_exactly": stats["exact"], "compared_with_relative_1e-5": stats["toleranced"],
                 "model_vs_impl_differences": len(diffs), "differences_explained_by_truncating_model_F12": nf12,
-                "impl_outputs_violating_statement": len(concrete) + len(sbad) + len(pbad)})
+                "impl_outputs_violating_statement": len(concrete) + len(sbad) + len(pbad) + len(cbad)})
     return ctx.finish(LEVEL, cov, [
         "domain: finite float inputs of moderate size (|coordinates| <= 100, weights in [1/32, 12], approximation and cutoff distances >= 0.1, "
         "CG tolerance in [1e-6, 1e-4]); no overflow/underflow; pin positions may coincide exactly (distance 0: the epsilon floor decides the entry)",
         "solver invariance is validated on %d SOLVE and %d PLACE cases (bitwise for 2^k; %g of the span for 2.5 and 7 on anchored systems; "
         "placeGlobal: only the first lower-bound placement is compared for non-dyadic factors, later steps take discrete decisions)" % (len(solve), len(place), SOLVE_TOL),
+        "callbacks in mid-run (%d PLACECB cases): only the setters the in-use guard accepts during a run (setCellWidth, setCellHeight, setNetWeights) and reads; "
+        "sizes stay >= 1 with the movable area under 85 %% of the free row area; factors 4 and 1/8 only (exact clause); setNetWeights has no effect on a running "
+        "global placement in the present code (GlobalPlacer::updateNets is never called): the case class guards the day it has" % len(placecb),
         "power-of-two clause: PROVED for the assembly in binary32 under the side condition fs_ok (no overflow, no rounded intermediate at or below "
         "2^-126) in both runs; for the conjugate gradient (not modelled) it is VALIDATED by the SOLVE/PLACE runs (factors 2^-24 .. 2^10) and by the "
         "SOLVEK runs for k over the whole window in which fs_ok holds in both runs (cg_scale_window_measured); finding F22 (FIXED on /repo main by 7251876, "
@@ -1044,7 +1114,7 @@ def replay(ctx, path):
         return 1 if bad else 0
     impl, _, _ = common.run_both([harness, "run"], None, [case])
     print("impl :", impl[0][:2000])
-    bad = check_solve([case], impl, stats) if tag == "SOLVE" else check_place([case], impl, stats)
+    bad = check_solve([case], impl, stats) if tag == "SOLVE" else check_placecb([case], impl, stats) if tag == "PLACECB" else check_place([case], impl, stats)
     for _, why in bad:
         print("violation:", why)
     return 1 if bad else 0
